@@ -4,6 +4,7 @@ from .. import core
 
 ALLOWED_AXIOMS = ()
 COMPONENT = "cli"
+NEEDS_SLICEC = True
 WS = set([9, 10, 11, 12, 13, 32, 133, 160, 5760, 8232, 8233, 8239, 8287, 12288] + list(range(8192, 8203)))
 
 
@@ -94,6 +95,43 @@ def run(ck):
         want_multi.append(" / ".join(m2[i][3:] for i in idx))
     om = core.run_impl("cli", multi)
     ck.compare("repeated-G", multi, want_multi, om, classify=classify)
+    # 4. delivery: what the generator process receives after the request is exactly the parsed argument list, in order
+    from .. import driver_common as dc
+    nd = 60 if ck.tier == "quick" else 600
+    arglists = [[(False, "k", "a"), (True, "other", ""), (False, "k", "b")], [(True, "v", ""), (True, "v", "")], [(False, "a", ""), (False, "a", "x"), (False, "b", "x")],
+                [(False, "include", "a"), (False, "include", "a")]]
+    while len(arglists) < nd:
+        args = []
+        keys = [rand_comp(rng) for _ in range(3)]
+        for _ in range(rng.choice([1, 1, 2, 3, 5])):
+            k = rng.choice(keys) if rng.random() < 0.5 else rand_comp(rng)      # repeated keys are ordinary
+            v = rand_comp(rng, blank_ok=True)
+            if trim(k) == "":
+                k = "k" + k
+            args.append((v == "" and rng.random() < 0.5, k, v))
+        arglists.append(args)
+    rl = ["render 70 %d %d %s" % (rng.choice([0, 0, 1]), len(a), " ".join("%d %s %s" % (1 if om else 0, hx(k), hx(v)) for om, k, v in a)) for a in arglists]
+    rend = [bytes.fromhex(x).decode("utf-8") if x != "-" else "" for x in core.run_model("cli", rl)]
+    src = [("S", "a.slice", "module M\nstruct S { a: int32 }\n")]
+    extra = ["--diagnostic-format", "json"]
+    dlines = [dc.run_line(False, extra, [("gen-reply-0", None, dc.enc_reply([]))], src)]
+    for r in rend:
+        dlines.append(dc.run_line(False, extra, [("gen-reply-0", r[2:] if r.startswith("p,") else None, dc.enc_reply([]))], src))
+    od = [dc.parse_run(x) for x in dc.run_all(dlines)]
+    ck.stream("delivered", description="the slicec binary with one recording generator given argument lists (repeated keys, omitted '=', empty values, escaped separators, Unicode) written by the extracted render_opt; "
+              "observable: the bytes the generator reads: the request of the argument-less run followed by the encoded dictionary of exactly the parsed pairs, in order")
+    base = od[0]["gens"].get("gen-reply-0", (0, "none"))[1] if od[0] else "none"
+    if base == "none" or not base.endswith("00"):
+        ck.violation("delivered", "baseline", dlines[0][:200], "a request ending in an empty argument list", str(base)[-40:], kind="correspondence")
+    else:
+        prefix = bytes.fromhex(base)[:-1]
+        for a, r, x, line in zip(arglists, rend, od[1:], dlines[1:]):
+            ck.count("delivered", line, kind="args=%d%s" % (len(a), ",repeated-key" if len({trim(k) for _, k, _ in a}) < len(a) else ""))
+            want = prefix + bytes([len(a) << 2]) + b"".join(dc.vstr(trim(k)) + dc.vstr(trim(v)) for _, k, v in a)
+            got = x["gens"].get("gen-reply-0", (0, "none")) if x else (0, "crash")
+            if got[0] != 1 or got[1] in ("none", "crash") or bytes.fromhex(got[1]) != want:
+                tail = bytes.fromhex(got[1])[len(prefix):] if got[1] not in ("none", "crash") else got[1]
+                ck.violation("delivered", "arguments-changed-on-the-way", "--generator=GEN," + r[2:], "started once and given %r" % [(trim(k), trim(v)) for _, k, v in a], "started %d time(s), argument bytes %r" % (got[0], tail))
     ck.extra["exhaustive"] = True
     ck.extra["rule"] = "exhaustive: all 3906 strings of length <= 5 over 5 characters; %d random written specifications over the whole Unicode range; 300 repeated -G command lines. Distinct by case text; all non-trivial." % n
-    ck.partial.append("that the arguments reach the generator unchanged is exercised by the generator-request checks (C08/C18), not here; clap's own option parsing is exercised, not modelled")
+    ck.partial.append("clap's own option parsing is exercised, not modelled; the encoding of the argument dictionary is the codec's (C10)")
